@@ -108,7 +108,7 @@ type lifecycleChecker struct {
 
 func newLifecycleChecker(c *fw.Case) *lifecycleChecker {
 	p := sut.Proto()
-	return &lifecycleChecker{c: c, st: sut.NewStack(p), ns: "did:sidetree", actual: &protocol.ResolutionModel{}, model: &oracle.State{}, time: 1000}
+	return &lifecycleChecker{c: c, st: sut.SharedStack(p), ns: "did:sidetree", actual: &protocol.ResolutionModel{}, model: &oracle.State{}, time: 1000}
 }
 
 // step feeds one request; facts carry what the caller asked for.
@@ -711,7 +711,7 @@ func c08Refusals(c *fw.Case) {
 	lp, _ := sut.ToPatches([]interface{}{gen.PAddKeys(gen.RandDocKey(r, "key1"))})
 	strict := sut.Proto()
 	strict.MultihashAlgorithms = []uint{code}
-	parser := sut.NewStack(strict).Parser
+	parser := sut.SharedStack(strict).Parser
 	type refusal struct {
 		name  string
 		build func() ([]byte, error)
